@@ -38,7 +38,7 @@ func StressClient(srv http.Handler, id int, seed int64, n int, repos []string, d
 		default:
 		}
 		repo := repos[rng.Intn(len(repos))]
-		switch k := rng.Intn(10); {
+		switch k := rng.Intn(11); {
 		case k < 6:
 			// chunked upload, possibly abandoned, with pauses long enough for expiry to strike mid-upload
 			rs := do(Req{Method: "POST", URL: "/v2/" + repo + "/blobs/uploads/"})
@@ -84,6 +84,19 @@ func StressClient(srv http.Handler, id int, seed int64, n int, repos []string, d
 			do(Req{Method: "GET", URL: "/v2/" + repo + "/referrers/" + img.D})
 			if rng.Intn(2) == 0 {
 				do(Req{Method: "DELETE", URL: "/v2/" + repo + "/manifests/" + art.D})
+			}
+		case k < 9:
+			// cross-repository and same-repository mounts of content the target does not hold (two repository handles in
+			// one request), with and without a source that has it
+			src := repos[rng.Intn(len(repos))]
+			content := []byte(fmt.Sprintf("mount-%d-%d", id, s))
+			d := DigestOf("sha256", content)
+			if rng.Intn(2) == 0 {
+				do(Req{Method: "POST", URL: "/v2/" + src + "/blobs/uploads/?digest=" + d, Body: content})
+			}
+			rs := do(Req{Method: "POST", URL: "/v2/" + repo + "/blobs/uploads/?mount=" + d + "&from=" + src})
+			if loc := rs.H.Get("Location"); rs.Status == 202 && loc != "" && rng.Intn(2) == 0 {
+				do(Req{Method: "DELETE", URL: strings.SplitN(loc, "?", 2)[0]})
 			}
 		default:
 			do(Req{Method: "GET", URL: "/v2/" + repo + "/tags/list"})
